@@ -27,7 +27,7 @@ CHECKS.update({
  "C03": ("model_checking", "TLC on LexSpec.tla (Progress, Ordered, Gaps, EndsAtLen, Variant, <>done under WF) + replay + LexTrace trace validation",
          "The reference lexer is a TLA+ state machine (one step per next() call); TLC checks tiling, strict progress and termination (liveness under weak fairness) for every input up to a length bound over every corpus definition, and every behaviour is replayed on the compiled lexers, which must return exactly those items and then None on every further call; recorded hook traces of random inputs are validated against LexTrace.tla; definitions with a nullable pattern must be rejected.",
          "input length bounded at sequence level (per-attempt claims are unbounded, C01); corpus-bounded definitions", "3.3, 5 C03"),
- "C04": ("model_checking", "TLC on LexSpec.tla (Boundaries), Attempt.tla (T-utf8), RefUtf8.tla (acceptance) + replay with slice()/remainder() checks + LexTrace endb conjunct",
+ "C04": ("model_checking", "TLC on LexSpec.tla (Boundaries), Attempt.tla (T-utf8), RefUtf8.tla (acceptance: every pattern, and every subpattern on its own through twin definitions) + replay with slice()/remainder() checks + LexTrace endb conjunct",
          "UTF-8 validity is part of the product state (Attempt) and of the explicit inputs (LexSpec, multi-byte characters in every alphabet); the driver compares slice() and remainder() with source[span] after every call in default and forbid_unsafe builds; RefUtf8.tla decides per pattern whether it can match invalid UTF-8 and the derive must have rejected such str-mode definitions.",
          "as C01/C03", "3.4 T-utf8, 5 C04"),
  "C05": ("model_checking", "LexTrace.tla Read/End/EndB conjuncts on hooked reads of exactly-sized heap inputs; SourceRead.tla + replay of Source::read; build equality; every replay repeated with adversarial bytes next to the source",
@@ -39,10 +39,10 @@ CHECKS.update({
  "C12": ("model_checking", "TLC on Modes.tla (SameInBothModes) over twin definitions + replay of both variants + RefUtf8.tla",
          "Every str-acceptable corpus definition is captured twice (str, utf8=false); TLC checks on the reference lexer that both yield the same Ok items and error bytes for every enumerated valid UTF-8 input; both real lexers are replayed against LexSpec and compared with each other.",
          "as C03", "5 C12"),
- "C13": ("model_checking", "TLC on Callbacks.tla (Decide table, SkipTransparent) + replay of items and callback invocation logs",
+ "C13": ("model_checking", "TLC on Callbacks.tla (Decide table incl. bump before every kind of decision, SkipTransparent, PartialIsPrefix) + replay of items and callback invocation logs on ordinary and partial lexers",
          "The documented callback table is a TLA+ operator (Decide); subject callbacks implement the same pure decisions; expected items (with payloads and error values) and the list of callback invocations with spans are replayed on four builds.",
          "callback decisions depend on the match length only; 8 hand-written definitions", "5 C13"),
- "C14": ("model_checking", "TLC on LexerAPI.tla (all reachable states of two lexer slots) + replay of one history per state x operation",
+ "C14": ("model_checking", "TLC on LexerAPI.tla (all reachable states of two lexer slots over two source buffers: next, bump, clone, clone_from, morph, spanned, fresh lexer) + seeded TLC simulation of longer histories + replay of one history per state x operation",
          "TLC explores every reachable state of the API state machine (next, bump, clone, morph, spanned over two slots and two token types) and the harness replays a history reaching each state followed by each enabled operation against the real API, comparing results, spans, extras and slice()/remainder() equations.",
          "three hand-written pairs of definitions; inputs up to 3-4 characters", "3.6, 5 C14"),
  "C15": ("model_checking", "TLC on LexerAPI.tla (SpanInv; Bump with every n incl. overflow) + replay on debug/release x default/forbid_unsafe",
@@ -54,7 +54,7 @@ CHECKS.update({
  "C16": ("exploration", "GenTrace.tla validation of output digests recorded from threads x processes x both generators",
          "generate() and strip_attributes() are run for every corpus definition on several threads of several processes (fresh hash seeds) with both code generators; the digest trace is accepted by GenTrace.tla only if every key has one value.",
          "hash seeds are sampled, not enumerated", "5 C16"),
- "C17": ("exploration", "TLC enumeration of enum sources and of write/check/tamper histories (Cli.tla) replayed on the real logos-cli binary",
+ "C17": ("exploration", "TLC enumeration of enum sources (derive lists, attribute placement, item shapes: visibility, generics, look-alike and field attributes, discriminants) and of write / check / --format / damage histories (Cli.tla) replayed on the real logos-cli binary",
          "Cli.tla specifies what must remain of the derive lists and how the output file evolves; every enumerated source and history is executed with the real binary and compared (stdout parsed with syn; impl part equal to generate()).",
          "fixed enum body; --format not exercised; damage to the output file is one of five kinds", "3.9, 5 C17"),
  "C18": ("exploration", "TLC enumeration of argument / item permutations (Attr.tla, tokenizer model refines grammar) replayed on the real derive",
@@ -109,8 +109,8 @@ def main():
             {"name": "compile", "path": "spec/Compile.tla", "serves_properties": ["C01"], "kind_free_text": "the four passes of Graph::new transcribed and compared with the hook's pass snapshots (drift level); Attempt.tla on every snapshot"},
             {"name": "regex", "path": "spec/Regex.tla", "serves_properties": ["C09", "C01"], "kind_free_text": "regex ASTs: Complexity (priorities), Matches (textbook semantics, RegexAgree against the real lexers)"},
             {"name": "lextrace", "path": "spec/LexTrace.tla", "serves_properties": ["C03", "C04", "C05", "C06", "C20"], "kind_free_text": "trace validation of recorded hook events (code -> spec)"},
-            {"name": "api", "path": "spec/LexerAPI.tla", "serves_properties": ["C14", "C15"], "kind_free_text": "API state machine over lexer objects + history replay"},
-            {"name": "callbacks", "path": "spec/Callbacks.tla", "serves_properties": ["C13"], "kind_free_text": "callback decision table + replay"},
+            {"name": "api", "path": "spec/LexerAPI.tla", "serves_properties": ["C14", "C15"], "kind_free_text": "API state machine over lexer objects and two source buffers (exhaustive to a bound + seeded simulation beyond it) + history replay"},
+            {"name": "callbacks", "path": "spec/Callbacks.tla", "serves_properties": ["C13"], "kind_free_text": "callback decision table, bump inside callbacks, partial lexers + replay"},
             {"name": "front", "path": "spec/Derive.tla", "serves_properties": ["C09", "C16", "C17", "C18", "C19"], "kind_free_text": "TLC-enumerated programs (Derive, Attr, Regex, Cli, GenTrace) replayed on the real derive / rustc / logos-cli"},
         ],
         "checks": checks,
